@@ -196,9 +196,9 @@ Proof.
     rewrite Hvn, Hav, N.leb_refl. cbn [negb].
     destruct v as [[va vav] vn]. cbn [sptr slen addr avail] in *. subst va vav. rewrite Hvn. reflexivity.
   - unfold compile_fail, must_slice_okb, assert_true in *. unfold Must.must_cast_slice.
-    destruct (Must.ASSERT_SIZE_MULTIPLE_OF_OR_INPUT_ZST A B) as [[|]| |]; cbn [const_assert bind]; eauto.
-    destruct (Must.ASSERT_ALIGN_GREATER_THAN_EQUAL A B) as [[|]| |]; cbn [const_assert bind]; eauto.
-    discriminate.
+    (* whichever of the two assertions the code evaluates first *)
+    destruct (Must.ASSERT_SIZE_MULTIPLE_OF_OR_INPUT_ZST A B) as [[|]| |]; destruct (Must.ASSERT_ALIGN_GREATER_THAN_EQUAL A B) as [[|]| |];
+      cbn [const_assert bind] in *; eauto; discriminate.
 Qed.
 
 Theorem must_cast_slice_mut_char ENV A B s :
@@ -231,9 +231,9 @@ Proof.
     rewrite Hvn, Hav, N.leb_refl. cbn [negb].
     destruct v as [[va vav] vn]. cbn [sptr slen addr avail] in *. subst va vav. rewrite Hvn. reflexivity.
   - unfold compile_fail, must_slice_okb, assert_true in *. unfold Must.must_cast_slice_mut.
-    destruct (Must.ASSERT_SIZE_MULTIPLE_OF_OR_INPUT_ZST A B) as [[|]| |]; cbn [const_assert bind]; eauto.
-    destruct (Must.ASSERT_ALIGN_GREATER_THAN_EQUAL A B) as [[|]| |]; cbn [const_assert bind]; eauto.
-    discriminate.
+    (* whichever of the two assertions the code evaluates first *)
+    destruct (Must.ASSERT_SIZE_MULTIPLE_OF_OR_INPUT_ZST A B) as [[|]| |]; destruct (Must.ASSERT_ALIGN_GREATER_THAN_EQUAL A B) as [[|]| |];
+      cbn [const_assert bind] in *; eauto; discriminate.
 Qed.
 
 Theorem must_cast_ref_char ENV A B p :
@@ -255,9 +255,9 @@ Proof.
     revert Hv. open_cast Internal.try_cast_ref. split_all. all: intros Hv; inv_ret; try discriminate.
     all: try (subst v; reflexivity). all: b2p; weaken; lia.
   - unfold compile_fail, must_ref_okb, assert_true in *. unfold Must.must_cast_ref.
-    destruct (Must.ASSERT_SIZE_EQUAL A B) as [[|]| |]; cbn [const_assert bind]; eauto.
-    destruct (Must.ASSERT_ALIGN_GREATER_THAN_EQUAL A B) as [[|]| |]; cbn [const_assert bind]; eauto.
-    discriminate.
+    (* whichever of the two assertions the code evaluates first *)
+    destruct (Must.ASSERT_SIZE_EQUAL A B) as [[|]| |]; destruct (Must.ASSERT_ALIGN_GREATER_THAN_EQUAL A B) as [[|]| |];
+      cbn [const_assert bind] in *; eauto; discriminate.
 Qed.
 
 Theorem must_cast_mut_char ENV A B p :
@@ -283,9 +283,9 @@ Proof.
     revert Hv. open_cast Internal.try_cast_mut. split_all. all: intros Hv; inv_ret; try discriminate.
     all: try (subst v; reflexivity). all: b2p; weaken; lia.
   - unfold compile_fail, must_ref_okb, assert_true in *. unfold Must.must_cast_mut.
-    destruct (Must.ASSERT_SIZE_EQUAL A B) as [[|]| |]; cbn [const_assert bind]; eauto.
-    destruct (Must.ASSERT_ALIGN_GREATER_THAN_EQUAL A B) as [[|]| |]; cbn [const_assert bind]; eauto.
-    discriminate.
+    (* whichever of the two assertions the code evaluates first *)
+    destruct (Must.ASSERT_SIZE_EQUAL A B) as [[|]| |]; destruct (Must.ASSERT_ALIGN_GREATER_THAN_EQUAL A B) as [[|]| |];
+      cbn [const_assert bind] in *; eauto; discriminate.
 Qed.
 
 Theorem must_cast_char ENV A B a :
